@@ -192,11 +192,14 @@ def build(tier):
             'number of generated ranges == (elements + chunksize - 1) / chunksize == the count passed to section.reserve (SMT over Int, with overflow obligations)',
             'pool_t::map (un-chunked): indices 0..elements-1 once each, in order; number of tasks == elements == reserve count',
             'each task lambda calls the operator exactly once on exactly its captured range / index with the worker id it is run with; the sequential branch passes worker id 0 < pool size',
-            'map protocol: tasks are pushed with the queue mutex held; the mutex is released before blocking; workers are notified after the last push and before blocking; the section holds exactly one future per task, in order; block gets the caller\'s raise flag; on the normal and on the exceptional path map returns only after ~section_t waited for every task; an exception leaves map only if raise is set',
+            'map protocol: tasks are pushed with the queue mutex held; the mutex is released before blocking; workers are notified after the last push and before blocking; the section holds exactly one future per task, in order; block gets the caller\'s raise flag; an exception leaves map only if raise is set',
+            'map completion on EVERY exit (normal or exceptional), for an arbitrary (ghost) task of the call: when map is left, this thread has observed that the task finished (wait() / get() returned or threw, or wait_for() reported ready).  Proved MODULARLY: map calls the REAL section_t::block and ~section_t through their contracts (DFCC replace-call-with-contract, section.h), and both are proved against these contracts in targets section_block / section_dtor; ~section_t runs at every scope exit of `section` (C++ rule, applied by the printer) with the exception in flight set aside and must not throw itself',
+            'map re-throw: with raise == true, if any task of the call ends with a stored exception then an exception leaves map (it is never swallowed); with raise == false none leaves',
             'worker loop (one worker, monitor semantics for wait(lock, pred) with the real predicate): front/pop_front only on a non-empty queue with the lock held; the popped task is the one run, exactly once, with this worker\'s id, after the lock was released; the worker leaves only after seeing stop, with the queue cleared, the others notified, no lock held, nothing run after stop was seen',
             'pool_t::pool_t(threads): #workers == #threads == clamp(threads, 1, max_size()) in [1, max_size()], worker k gets id k (so every id < size()); max_size() == max(1, hardware_concurrency) >= 1; worker_t constructor stores its id',
             '~pool_t: stop written with the mutex held, workers notified after that, mutex released before any join, every thread joined exactly once',
-            'section_t::block(raise): every future visited once in order; valid futures waited with get() iff raise else wait(); exception leaves only if raise; ~section_t calls block(false) once',
+            'section_t::block(raise) (real body incl. any LOCAL std::vector<future_t> it uses: default / move construction, swap, std::swap, clear, range-for; file-local helpers are extracted automatically), at a ghost task: (1) an exception leaves only if raise; (2) on the normal exit every valid future held at entry has been waited for; (3) on the exceptional exit each of them has been waited for OR IS STILL HELD BY THE SECTION (so ~section_t waits for it); (4) with raise a stored exception is delivered (block does not return normally) and (5) every valid future went through get() -- a future that is already ready (wait_for) is no exception; (6) the exception that leaves is the first stored one in visiting order; (7) observed completion is never lost; every position visited once, in order; get / wait / wait_for only on valid futures',
+            '~section_t(): does not throw; every valid future the section holds has been waited for (block is called through its proved contract)',
             'queue_t::enqueue_no_lock / enqueue: exactly one task is pushed, the returned future is that task\'s; enqueue pushes under the lock and notifies once afterwards',
             'BOUNDED (not proved; target conc_map_1sub_2_w0only, listed under bounded): the extracted pool_t(2) constructor (real worker_t constructor binds queue and id, any hardware_concurrency), map(elements <= 2, op, any raise) un-chunked size_t with the real enqueue_no_lock and task lambda, worker_t::operator() with its real wait predicate, section_t::block / ~section_t and ~pool_t run as CBMC threads: ALL interleavings of the submitting thread with worker 0 in which worker thread 1 is not scheduled before it is joined.  Asserted: every task body runs at most once; front / pop_front / emplace_back / clear / empty only with the mutex held by the calling thread and (front, pop_front) on a non-empty queue; the popped task holds its function and was moved out before pop_front; the task and the operator run outside the lock; worker id below the pool size and not in use by another running task of the call; when map returns every element was processed and every task finished, none outside [0, elements); no exception leaves map; wait called with the lock held; no self-deadlock on the mutex; join with the mutex released, once per thread; after ~pool_t every worker has left its loop without the lock and was joined, stop is set, the mutex free, the queue empty, nothing touches the queue or runs afterwards; every loop stays within its unwinding bound; reachability canary: the final state is reached'],
         'not_decided': [
@@ -205,6 +208,8 @@ def build(tier):
             'lost wake-ups / deadlock freedom: the bounded model lets wait(lock, pred) return whenever pred holds (notify_one / notify_all are no-ops), so a missing or misplaced notify is invisible; only "the final state is reachable under some schedule" is checked (nv_canary).  The stricter notification-counter model is sketched in conc.h (NV_STRICT_NOTIFY) but not run',
             'data races on plain members read outside the models (m_stop is read directly by the extracted code): no race detector is run (goto-instrument --race-check not tried); sequential consistency is assumed by the bounded check',
             'data races on the operator\'s own state; exceptions thrown by the operator in the sequential branch',
+            'section_t::block written with an explicit iterator or index loop instead of the range-based for: the loop contract of section.h names the range-for\'s own variables (__range1 / __begin1 / __end1), such a rewrite ends undecided (exit 2), not refuted; a COPY of a vector of futures (std::vector<future_t> v(*this)) and try / catch inside block or map are not in the printer\'s / the model\'s vocabulary (undecided)',
+            'that "this thread observed the task finished" implies the operator\'s effects are visible to the caller (happens-before through the shared state of std::future: assumed, C++ [futures.state])',
             'std::thread(std::cref(worker)) starts worker k on thread k (lambda inside std::transform: not extractable, dependent types)',
             'that clearing the queue on stop breaks the promises of the dropped tasks (std::packaged_task destructor semantics)',
             'chunked map with chunksize < elements and elements + chunksize not representable in tsize (precondition, see assumptions)'],
@@ -216,7 +221,9 @@ def build(tier):
             'std::scoped_lock / std::unique_lock lock in the constructor and unlock in the destructor; destructors of locals run at scope exit in reverse order (C++ rule, applied by the printer)',
             'std::min / std::max / std::clamp (with lo <= hi) return the mathematical min / max / clamp',
             'std::vector::emplace_back appends one element; std::transform + back_inserter appends one output per input; range-for visits begin..end',
-            'std::packaged_task(f) holds f, get_future() returns its future, moving it leaves it empty; shared_future::get() waits then rethrows, wait() waits',
+            'std::packaged_task(f) holds f, get_future() returns its future, moving it leaves it empty; shared_future::get() waits then rethrows the stored exception (every time it is called; the only call that delivers it), wait() waits; wait_for / wait_until return future_status::ready iff the shared state is ready (it may become ready at any time, never un-ready), never deferred, and consume nothing; valid() of the copies of one future agree',
+            'std::vector<future_t> (section_t and local vectors): a vector of futures is the contiguous range of task ids it holds (map\'s emplace_back asserts that it is filled in task order); default construction = empty, swap / std::swap exchange contents, move construction / assignment leave the source empty, clear() drops the futures WITHOUT waiting (shared_future destructor does not block), iterators = (container, position); copying a vector of futures is not modelled (extraction stops: undecided)',
+            'the task whose future throws in get() is described by a prophecy bit per ghost task (the task ends with a stored exception or not); futures other than the ghost one throw nondeterministically',
             'queue_t::enqueue_no_lock as used inside map is modelled by the values the pushed lambda captures (checked by-copy); its own body is verified in target enqueue_no_lock',
             'worker_t::m_queue (a reference member) is modelled as the worker\'s own view of the queue',
             'the user operator is opaque and, in the contracts, does not throw',
